@@ -258,6 +258,15 @@ def run_shard(desc, seed, tier, col):
             return {'b': d.bytes(d.int(0, 24)), 'label': 'random'}
         if r <= 3:
             return {'b': grammar_tlv(d, 3), 'label': 'grammar'}
+        if r == 5 and d.pct(30):
+            # a length octet sequence at the edge of what a stream's read() accepts (sys.maxsize and a few below, 2**63 .. above)
+            import sys as _sys
+            ln = d.pick([_sys.maxsize - k for k in range(0, 12)] + [_sys.maxsize + 1, 2 ** 64 - 1, 2 ** 32, 2 ** 31 - 1])
+            head = bytes([d.pick([0x04, 0x30, 0x24, 0x02, 0xa0, 0x31, 0x0c])]) + bytes([0x88]) + ln.to_bytes(8, 'big')
+            b = head + d.bytes(d.int(0, 6))
+            if d.pct(40):
+                b = b'\x30\x80' + b + b'\x00\x00'
+            return {'b': b, 'label': 'edge-length'}
         if r == 4 and d.pct(50):
             # a record of mandatory members in which one member arrives twice and another one not at all
             kinds = d.draw(st.lists(st.sampled_from(['BOOLEAN', 'INTEGER', 'OCTETSTRING', 'NULL', 'OID', 'UTF8String', 'IA5String', 'BITSTRING']),
